@@ -38,6 +38,8 @@ func runC07(c *core.Ctx) {
 	checkTypecheckRecover(c)
 	c.Rule("NILELEM", "the element type of a list type is not dereferenced unguarded")
 	checkElementDerefs(c)
+	c.Rule("OPTPTR", "optional parts of a layout mapping are dereferenced only under a nil test")
+	checkOptionalParts(c)
 }
 
 func checkTypecheckRecover(c *core.Ctx) {
@@ -197,4 +199,102 @@ func checkElementDerefs(c *core.Ctx) {
 	if n < 6 {
 		c.Unknown("NILELEM", "<derefs>", 0, fmt.Sprintf("only %d element-type dereferences found", n))
 	}
+}
+
+// checkOptionalParts (OPTPTR): a struct type whose pointer-typed fields are all optional parts of a tagged record
+// (execution.LayoutMapping: Struct / List / Tuple, of which calculateMapping fills none when the target type carries no
+// shape, e.g. Any) must not be dereferenced through such a field without a nil test of that very field on the path.
+func checkOptionalParts(c *core.Ctx) {
+	p := c.Prog
+	n := 0
+	seenKeys := map[string]int{}
+	for _, fr := range p.AllFuncs("execution") {
+		info := fr.Info()
+		name := p.FName(fr)
+		core.WalkStack(fr.Decl.Body, func(nd ast.Node, stack []ast.Node) bool {
+			outer, ok := nd.(*ast.SelectorExpr)
+			if !ok {
+				return true
+			}
+			inner, ok := outer.X.(*ast.SelectorExpr)
+			if !ok {
+				return true
+			}
+			sel := info.Selections[inner]
+			if sel == nil || sel.Kind() != types.FieldVal {
+				return true
+			}
+			recv := sel.Recv()
+			if pt, ok := recv.(*types.Pointer); ok {
+				recv = pt.Elem()
+			}
+			nt, ok := recv.(*types.Named)
+			if !ok || nt.Obj().Name() != "LayoutMapping" {
+				return true
+			}
+			if _, isPtr := info.TypeOf(inner).(*types.Pointer); !isPtr {
+				return true
+			}
+			// writes that construct the part are not dereferences of an unknown value
+			n++
+			part := core.ExprStr(inner)
+			guarded := false
+			for i := len(stack) - 1; i >= 0 && !guarded; i-- {
+				switch x := stack[i].(type) {
+				case *ast.IfStmt:
+					if strings.Contains(core.ExprStr(x.Cond), part+" != nil") {
+						// inside the then-branch
+						if nd.Pos() >= x.Body.Pos() && nd.End() <= x.Body.End() {
+							guarded = true
+						}
+					}
+				case *ast.BlockStmt, *ast.CaseClause:
+					var list []ast.Stmt
+					if b, ok := x.(*ast.BlockStmt); ok {
+						list = b.List
+					} else {
+						list = x.(*ast.CaseClause).Body
+					}
+					for _, s := range list {
+						if s.Pos() >= nd.Pos() {
+							break
+						}
+						if is, ok := s.(*ast.IfStmt); ok && strings.Contains(core.ExprStr(is.Cond), part+" == nil") && len(is.Body.List) > 0 {
+							if _, ok := is.Body.List[len(is.Body.List)-1].(*ast.ReturnStmt); ok {
+								guarded = true
+							}
+						}
+					}
+				case *ast.FuncLit:
+					i = -1
+				}
+			}
+			// the function that builds the mapping assigns the part before using it
+			if !guarded {
+				ast.Inspect(fr.Decl.Body, func(m ast.Node) bool {
+					if as, ok := m.(*ast.AssignStmt); ok && as.Pos() < nd.Pos() {
+						for _, l := range as.Lhs {
+							if core.ExprStr(l) == part {
+								guarded = true
+							}
+						}
+					}
+					if kv, ok := m.(*ast.KeyValueExpr); ok && kv.Pos() < nd.Pos() && core.ExprStr(kv.Key) == inner.Sel.Name {
+						_ = kv
+					}
+					return true
+				})
+			}
+			okey := fmt.Sprintf("%s/%s.%s", name, part, outer.Sel.Name)
+			seenKeys[okey]++
+			if seenKeys[okey] > 1 {
+				okey += fmt.Sprintf("#%d", seenKeys[okey])
+			}
+			c.Decide(guarded, "OPTPTR", okey, outer.Pos(), 1, "dereferenced under a nil test of "+part,
+				fmt.Sprintf("%s is an optional part of the layout mapping (nil when the target type has no shape of that kind, e.g. Any) and is dereferenced here without a nil test: a structured value under such a target crashes the process", part))
+			return true
+		})
+	}
+	c.Floor("OPTPTR", 3, "fixLayout reads the Struct, List and Tuple parts")
+	_ = n
 }
